@@ -86,8 +86,8 @@ unit('pp.escape.alias.reserve.anycount', ALIAS_CLAUSE + ' - for EVERY count a bu
      failing='GENUINE DEFECT (C11/C01, needs a buffer of >= 357913941 bytes): janet_escape_buffer_b computes the reservation as the int32 expression bx->count + 5 * bx->count + 3, which overflows '
              '(undefined behaviour; wraps to a negative number in practice) for count > (INT32_MAX - 3) / 6. janet_buffer_ensure then returns without reserving anything, the buffer is reallocated by the '
              'first push that does not fit while janet_escape_string_impl keeps reading the source bytes through the stale pointer into the freed storage (use after free). Failing obligation: '
-             'janet_escape_buffer_b.overflow (arithmetic overflow on signed * / +) and "the reservation covers the worst case". Reproducer: /verif/design-probes/repro/c11_jdn_self_buffer_overflow.c '
-             '(libjanet.a with a realloc that always moves and poisons the old block: the printed literal consists of poison bytes); Janet: (def b (buffer/new-filled 400000000 65)) (buffer/format b "%j" b).')
+             'janet_escape_buffer_b.overflow (arithmetic overflow on signed * / +) and "the reservation covers the worst case". Reproducer on /repo/_build/janet: (def b (buffer/new-filled 400000000 1)) (buffer/format b "%j" b) -> SIGSEGV (with 300000000 bytes it works); native reproducer /verif/harness/pp_repro_self_buffer.c '
+             '(libjanet.a with a realloc that always moves and poisons the old block: from unit 89478486 on the literal is made of poison bytes). Repair: compute the reservation in int64 and raise when it exceeds INT32_MAX.')
 for n0, cap0 in [(0, 1), (1, 1), (2, 2), (2, 8)]:
   unit('pp.escape.alias.content.n%d_cap%d' % (n0, cap0),
      'janet_escape_buffer_b printing a buffer into itself, with the real buffer.c and a realloc that always moves the storage: the text appended is @ + the literal of the contents the buffer had '
@@ -100,7 +100,7 @@ for n0, cap0 in [(0, 1), (1, 1), (2, 2), (2, 8)]:
      mutants=[M('reservation-dropped', '    if (bx == buffer) {\n', '    if (0) {\n', 'deallocated|dereference')],
      failing='GENUINE DEFECT (C11, low severity): janet_escape_buffer_b pushes the @ into the destination BEFORE it reads bx->count, so when a buffer is printed into itself the @ just written is '
              'taken for part of the value: (def b @"abc") (buffer/format b "%j" b) appends @"abc@" - which parses back to @"abc@", not to the @"abc" that was printed (%p appends the correct @"abc"). '
-             'Failing obligation: "the literal closes directly after the last byte of the printed value". Reproducer: /verif/design-probes/repro/c11_jdn_self_buffer.janet')
+             'Failing obligation: "the literal closes directly after the last byte of the printed value". Reproducer and repair (read bx->count before pushing the @; the four units then pass): header of /verif/harness/pp_escape_alias.c')
 
 # ---------------------------------------------------------------------------------------------------------------------
 # numbers outside the jdn path (C13: integers up to 2^53 print exactly)
@@ -221,7 +221,7 @@ for cls_no, tag, what, muts, failing in [
     (2, 'keyword', 'keywords of 0..2 bytes of the ASCII symbol alphabet (digits, colons, signs included)', RT_KW_MUT, None),
     (3, 'reserved', 'the symbols nil, true, false', RT_MUT,
      'GENUINE DEFECT (C11): print_jdn_one accepts the symbols whose text is nil, true or false; the text reads back as the constant, not as the symbol. '
-     '(string/format "%j" (symbol "nil")) -> "nil", (parse "nil") -> nil. Failing obligation: "a printed symbol reads back as a symbol". Reproducer: header of /verif/harness/pp_jdn_sym.c (c11_jdn_symbols.janet).' + RT_REPAIR),
+     '(string/format "%j" (symbol "nil")) -> "nil", (parse "nil") -> nil. Failing obligation: "a printed symbol reads back as a symbol". Reproducer: header of /verif/harness/pp_jdn_sym.c.' + RT_REPAIR),
     (4, 'numeric', 'symbols whose text scans as a number (-1, +1, .5, -0xf, -2r1)', RT_MUT,
      'GENUINE DEFECT (C11): print_jdn_one accepts symbols whose text the reader scans as a number (only a leading DIGIT is refused; a leading sign or point is not): '
      '(string/format "%j" (symbol "-1")) -> "-1", (parse "-1") -> the number -1; likewise +1, .5, -0x10, -2r1, -1_. Failing obligation: "a printed symbol reads back as a symbol". Reproducer: header of /verif/harness/pp_jdn_sym.c.' + RT_REPAIR),
@@ -231,12 +231,14 @@ for cls_no, tag, what, muts, failing in [
     (6, 'empty', 'the empty symbol', RT_MUT,
      'GENUINE DEFECT (C11): print_jdn_one accepts the empty symbol and prints nothing for it: (string/format "%j" (symbol "")) -> "", which reads back as no value at all ((parse "") -> error "no value"); inside '
      'a container the element silently disappears: (string/format "%j" [(symbol "") 1]) -> "( 1)". Failing obligation: "the printed text reads back as exactly one value". Reproducer: header of /verif/harness/pp_jdn_sym.c.' + RT_REPAIR)]:
-    jdn('symbol.rt.' + tag, RT_CLAUSE % what, 'h_jdn_symbol_roundtrip', muts, harness='pp_jdn_sym.c', src=['pp.c', 'parse.c', 'strtod.c'], defines=['-DSYMCLASS=%d' % cls_no],
+    jdn('symbol.rt.' + tag, RT_CLAUSE % what, 'h_jdn_symbol_roundtrip', muts, harness='pp_jdn_sym.c', src=['pp.c', 'parse.c'] + ([] if cls_no in (1, 2, 5) else ['strtod.c']), defines=['-DSYMCLASS=%d' % cls_no],
+        cbmc=['--sat-solver', 'cadical'],
         replace_calls=RT_STUBS + (['janet_scan_numeric:ps_scan_numeric_stub'] if cls_no in (1, 2, 5) else []),
         functions=['contains_bad_chars', 'janet_description_b', 'janet_to_string_b', 'janet_parser_consume', 'tokenchar', 'janet_scan_numeric'], min_reach_any=1,
         link=['wrap.c', 'util.c'], link_keep={'util.c': ['janet_cstrcmp']},
-        bound=what + '; unwind 12 with unwinding assertions', failing=failing, timeout=300,
-        assumes=RT_ASS + (['classes with symbolic characters: the reader is handed the accumulated token (its accumulation of symbol characters: units parse.consumer.tokenchar / root_open); the number scanner is not reachable for these texts (asserted)'] if cls_no in (1, 2, 5) else []))
+        bound=what + '; unwind 12 (reader dispatch loop: 3) with unwinding assertions', failing=failing, timeout=300, unwindset={'janet_parser_consume.0': 3, 'ps_realloc_stub.0': 130},
+        **(dict(genbody='(janet_|nd_).*|ldexp') if cls_no == 4 else {}),
+        assumes=RT_ASS + (['classes with symbolic characters: the reader is handed the accumulated token (its accumulation of symbol characters: units parse.consumer.tokenchar / root_open); the number scanner is not reachable for these texts (asserted)'] if cls_no in (1, 2, 5) else []) + (['ldexp returns any double (the numeric VALUE read back is irrelevant here, only that the token is taken for a number)'] if cls_no == 4 else []))
 
 if __name__ == '__main__':
     json.dump({'units': U}, open(os.path.join(V, 'units', 'C11_pp.json'), 'w'), indent=1)
